@@ -36,11 +36,12 @@ Definition dgram_ok (pp : params) (d : dgram) : Prop :=
   | DChunks tok ack rr n cs =>
     tok_ok tok /\
     0 <= ack < SEQ_MOD /\ n = Z.of_nat (length cs) /\ n <= 255 /\ Forall (chunk_ok pp) cs /\
-    chunks_dgram_size pp tok (chunks_size cs) <= MAX_PACKETSIZE
+    chunks_dgram_size pp tok (chunks_size cs) <= MAX_PACKETSIZE /\
+    (rr = true \/ n <> 0)          (* a flush only happens when there is something to send *)
   | DControl tok ack c =>
     tok_ok tok /\
     0 <= ack < SEQ_MOD /\ control_size pp tok c <= MAX_PACKETSIZE /\
-    match c with Close r => forallb (fun b => negb (b =? 0)) r = true | _ => True end
+    match c with Close r => forallb (fun b => negb (b =? 0)) r = true /\ (length r <= 127)%nat | _ => True end
   | DConnless _ _ p => Z.of_nat (length p) <= MAX_PAYLOAD
   end.
 
@@ -126,7 +127,8 @@ Proof.
   { unfold online_ok, o_clear. cbn. pose proof (pc_empty_ok pp Hpp).
     repeat split; try assumption; try lia; try apply H. }
   split.
-  { constructor; [|constructor]. unfold dgram_ok. split; [exact Htok|]. repeat split; try assumption; try lia. }
+  { constructor; [|constructor]. unfold dgram_ok. split; [exact Htok|]. repeat split; try assumption; try lia.
+    unfold can_send in Ecs. apply orb_true_iff in Ecs as [E|E]; [right; lia|left; exact E]. }
   unfold o_clear. cbn. do 5 (split; [reflexivity|]). split; [intros H; discriminate H|].
   intros _. repeat split.
 Qed.
